@@ -487,7 +487,7 @@ def clear_one(p, x):
             else:
                 rest.append((a, e))
         by_k.setdefault(k, {})[tuple(rest)] = c
-    K = max(max(by_k), 0)
+    K = max(max(by_k), 0) if by_k else 0
     out = P({})
     for k, terms in by_k.items():
         out = out + P(terms) * (D ** (K - k))
